@@ -496,4 +496,8 @@ def run(cx):
     cx.guard(r5b_late_dependency)
     from . import c01
     cx.borrow(c01.r5_order_provenance, "C01.R5", "C04.R5", "single-pass, incremental and pooled drivers evaluate each sub-graph through dr.run with its own broker", mods)
+    cx.borrow(c01.r5b_graph_as_requested, "C01.R5", "C04.R5", "single-pass, incremental and pooled drivers evaluate each sub-graph through dr.run with its own broker")
+    # who attributes an exception to which registry point must not depend on which driver asked first (memo with an incomplete key: C03.R3)
+    from . import c03
+    cx.borrow(c03.r3b_registry_points_not_memoised_partially, "C03.R3", "C04.R5", "single-pass, incremental and pooled drivers evaluate each sub-graph through dr.run with its own broker")
     cx.guard(r6_set_iteration, kinds, mods)
